@@ -140,6 +140,8 @@ class SymBool:
   def __ne__(self, o): return SymBool(self.t != _bterm(o))
   def __hash__(self): return id(self)
   def __repr__(self): return "SymBool(%s)" % self.t
+  def __pos__(self): return int(bool(self))
+  def __neg__(self): return -int(bool(self))
   # arithmetic on booleans (sum(...) of comparisons, int(b)) forks
   def __index__(self): return int(bool(self))
   def __int__(self): return int(bool(self))
@@ -732,11 +734,13 @@ class SymElem:
 
   def _b(name):
     def m(self, o):
+      if hasattr(type(o), "__iter__"): return NotImplemented     # a scalar defers to containers / Streams
       return SymElem(SymElem.fn(name, 2)(self.t, SymElem.lift(o).t))
     return m
 
   def _r(name):
     def m(self, o):
+      if hasattr(type(o), "__iter__"): return NotImplemented
       return SymElem(SymElem.fn(name, 2)(SymElem.lift(o).t, self.t))
     return m
 
@@ -767,8 +771,56 @@ class SymElem:
         self.t, *[SymElem.lift(a).t for a in args]))
 
 
+class ConcElem:
+  """Concrete counterpart of SymElem for native replays: the free term algebra (Herbrand interpretation).
+  Every operator builds a structural term, so routing errors show up as structurally different terms."""
+  __slots__ = ("v",)
+
+  def __init__(self, v):
+    self.v = v
+
+  @staticmethod
+  def lift(o):
+    if isinstance(o, ConcElem): return o
+    return ConcElem(("k", type(o).__name__, repr(o)))
+
+  def _b(name):
+    def m(self, o):
+      if hasattr(type(o), "__iter__"): return NotImplemented
+      return ConcElem((name, self.v, ConcElem.lift(o).v))
+    return m
+  def _r(name):
+    def m(self, o):
+      if hasattr(type(o), "__iter__"): return NotImplemented
+      return ConcElem((name, ConcElem.lift(o).v, self.v))
+    return m
+  def _u(name):
+    def m(self): return ConcElem((name, self.v))
+    return m
+  for _n in ("add sub mul truediv floordiv mod pow rshift lshift and or xor "
+             "matmul lt le eq ne gt ge").split():
+    locals()["__%s__" % _n] = _b(_n)
+  for _n in ("add sub mul truediv floordiv mod pow rshift lshift and or xor "
+             "matmul").split():
+    locals()["__r%s__" % _n] = _r(_n)
+  for _n in "pos neg invert abs".split():
+    locals()["__%s__" % _n] = _u(_n)
+  del _n, _b, _r, _u
+
+  def __hash__(self): return hash(self.v)
+  def __bool__(self): raise Unsupported("truth value of a concrete free-algebra element")
+  def __repr__(self): return "CElem%r" % (self.v,)
+  def __getattr__(self, name):
+    if name.startswith("__"): raise AttributeError(name)
+    return ConcElem(("attr_" + name, self.v))
+  def __call__(self, *args):
+    return ConcElem(("call%d" % len(args), self.v) + tuple(ConcElem.lift(a).v for a in args))
+
+
 def same(a, b):
   """Meta-level identity of two element terms (not the == operator)."""
   if isinstance(a, SymElem) or isinstance(b, SymElem):
     return SymBool(SymElem.lift(a).t == SymElem.lift(b).t)
+  if isinstance(a, ConcElem) or isinstance(b, ConcElem):
+    return ConcElem.lift(a).v == ConcElem.lift(b).v
   return a == b
